@@ -200,22 +200,24 @@ def run_shape(job, acc):
     for _idx, (n, edges) in space.chunk(it, job["chunk"], job["of"]):
         for kinds in typings(n, edges, job["bb"], job["consts"]):
             markable = [i for i in range(n) if kinds[i] not in ("bbin", "bbout")]
-            base = None
+            base = {}
             for r in range(len(markable) + 1):
                 for outs in itertools.combinations(markable, r):
                     desc = make_desc(n, edges, kinds, set(outs))
                     for flag in ((False,) if job["bb"] else (False, True)):
-                        if base is None:
-                            base = space.build(make_desc(n, edges, kinds, set()))
-                        c = snapshot.clone(base)
-                        for i in outs:
-                            c.graph.nodes[f"n{i}"]["output"] = True
-                        case = {"kind": "shape", "desc": desc, "inputs": flag}
-                        acc.states += 1
-                        nt = check_call(acc, c, flag, "shape", case)
-                        if nt:
-                            acc.nontrivial += 1
-                        acc.sample(case)
+                        # nodes inserted fan-in first, and loads first (a circuit built from its outputs backwards)
+                        for order in (None, "rev"):
+                            if order not in base:
+                                base[order] = space.build(make_desc(n, edges, kinds, set()), order=order)
+                            c = snapshot.clone(base[order])
+                            for i in outs:
+                                c.graph.nodes[f"n{i}"]["output"] = True
+                            case = {"kind": "shape", "desc": desc, "inputs": flag, "order": order}
+                            acc.states += 1
+                            nt = check_call(acc, c, flag, "shape", case)
+                            if nt:
+                                acc.nontrivial += 1
+                            acc.sample(case)
         if acc.out_of_time():
             break
 
@@ -299,7 +301,7 @@ def replay(case, job):
     common.setup_paths()
     acc = Acc(job)
     if case["kind"] == "shape":
-        c = space.build(case["desc"])
+        c = space.build(case["desc"], order=case.get("order"))
         check_call(acc, c, case["inputs"], "shape", case)
     else:
         c = space.build(case["seed"])
